@@ -48,6 +48,18 @@ func VerifC12_StoresImplementTheAbstractMap() {
 	ref := map[string]*refEntry{}
 	ids := []string{vn.StringIn("sidA", 2, alphaID), vn.StringIn("sidB", 2, alphaID)}
 	vn.Assume(vn.And(len(ids[0]) > 0, len(ids[1]) > 0, ids[0] != ids[1]))
+	// the history may start from a state in which both ids hold one and the same value (the very
+	// same *TokenResponse handed to the store twice): the map holds values, so a later write to one
+	// id must not show through the other
+	if vn.Choice("start-with-one-value-under-both-ids", 2) == 1 {
+		shared := &TokenResponse{IDToken: vn.JWT("seed-id", true, 0, "", 0, "", "", vn.Time("seed-exp"), true), AccessToken: vn.StringIn("seed-access", 2, alphaID)}
+		for _, id := range ids {
+			e1, e2 := mem.SetTokenResponse(ctx, id, shared), k.stores[0].SetTokenResponse(ctx, id, shared)
+			vn.Assert("C12/set-tokens-no-error", vn.And(e1 == nil, e2 == nil))
+			cp := *shared
+			ref[id] = &refEntry{created: k.now, tokens: &cp}
+		}
+	}
 	nops := vn.Bound("c12-ops", 2)
 	for step := 0; step < nops; step++ {
 		n := "op" + string(rune('0'+step))
@@ -66,7 +78,8 @@ func VerifC12_StoresImplementTheAbstractMap() {
 			if ref[id] == nil {
 				ref[id] = &refEntry{created: k.now}
 			}
-			ref[id].tokens = t
+			cp := *t
+			ref[id].tokens = &cp
 		case 1:
 			a := &AuthorizationState{State: vn.StringIn(n+"-state", 2, alphaID), Nonce: vn.StringIn(n+"-nonce", 2, alphaID), RequestedURL: vn.StringIn(n+"-url", 2, alphaID), CodeVerifier: vn.StringIn(n+"-verifier", 2, alphaID)}
 			vn.Assume(vn.And(a.State != "", a.Nonce != "", a.RequestedURL != "", a.CodeVerifier != ""))
